@@ -1359,7 +1359,9 @@ class Run:
             inst_set = set(insts)
             for _ in range(rng.choice([0, 1, 1, 2, 3])):
                 p, n = rng.choice(sorted(group))
-                d = g['tasks'][n]['inst'][str(p)]
+                d = g['tasks'].get(n, {}).get('inst', {}).get(str(p))
+                if d is None:
+                    continue                      # an orphan of a reload, or an off-sequence proxy
                 nbrs = [(a[0], a[1]) for pre in d['pre'] for a in pre['atoms']]
                 nbrs += [(c[1], c[0]) for cs in d['children'].values() for c in cs]
                 nbrs = sorted(set(x for x in nbrs if x in inst_set))
@@ -1388,7 +1390,7 @@ class Run:
             inst_set = set(insts)
             for _ in range(rng.choice([0, 0, 1, 1, 2])):
                 p, n = rng.choice(sorted(group))
-                d = g['tasks'][n]['inst'].get(str(p))
+                d = g['tasks'].get(n, {}).get('inst', {}).get(str(p))
                 if d is None:
                     continue
                 nbrs = [(a[0], a[1]) for pre in d['pre'] for a in pre['atoms']]
@@ -1441,7 +1443,7 @@ class Run:
             tdefs = g['tasks']
             if kind == 'set_out':
                 std = ['submitted', 'started', 'succeeded', 'failed', 'submit-failed', 'expired']
-                custom = [o[0] for o in tdefs[n]['outputs'] if o[0] not in std]
+                custom = [o[0] for o in tdefs.get(n, {}).get('outputs', []) if o[0] not in std]   # (n may be an orphan of a reload)
                 r = rng.random()
                 if r < 0.3:
                     outs = []
@@ -1455,7 +1457,7 @@ class Run:
                         outs = [rng.choice(custom)]
                 args['outputs'] = outs
             else:
-                d = tdefs[n]['inst'].get(str(p)) or {'pre': []}
+                d = tdefs.get(n, {}).get('inst', {}).get(str(p)) or {'pre': []}
                 trig = {nm: {o[1]: o[0] for o in t['outputs']} for nm, t in tdefs.items()}
                 atoms = sorted({(a[0], a[1], a[2]) for pre in d['pre'] for a in pre['atoms']})
                 r = rng.random()
@@ -1660,6 +1662,15 @@ class Run:
 # ---------------------------------------------------------------------------
 # instance graph of the loaded configuration, read off the real objects
 
+def _longest_interval(cfg):
+    """Longest cycling interval as an integer (integer cycling); None for datetime cycling, where the
+    interval is an ISO8601 duration (only the integer-cycling broadcast model of C19 reads this key)."""
+    try:
+        return int(str(cfg.interval_of_longest_sequence).lstrip('P'))
+    except (TypeError, ValueError):
+        return None
+
+
 def extract_graph(schd, case, flow_text=None):
     cfg = schd.config
     # additive (C27, policy 'inst_off'): also the instances at points that are NOT valid for the task (key
@@ -1781,7 +1792,7 @@ def extract_graph(schd, case, flow_text=None):
         # additive (C19 broadcasts): the namespaces a broadcast may address, and the longest cycling interval
         # (automatic broadcast expiry: cutoff = oldest pooled cycle - this)
         'namespaces': sorted(schd.broadcast_mgr.linearized_ancestors),
-        'longest_interval': int(cfg.interval_of_longest_sequence),
+        'longest_interval': _longest_interval(cfg),
         # additive (C27): `stop after cycle point` as written in the flow.cylc text (cfg.stop_point is overridden
         # by the --stopcp option / the database value); null if absent or beyond the final point
         'cfg_stop_file': _stop_in_file(flow_text if flow_text is not None else case.get('flow'), fcp),
